@@ -32,7 +32,10 @@ def partition(rng, data, kinds, style):
     for a, b in zip(cuts, cuts[1:]):
         steps.append('%s.%s' % (rng.choice(kinds), data[a:b].hex() or '-'))
         if style == 'random' and rng.below(5) == 0:
-            steps.append('cl')       # continue on a clone of the context (AAD phase or data phase, possibly in the middle of a block)
+            steps.append(rng.choice(['cl', 'cl', 'clf']))       # continue on a clone of the context / on a fresh context overwritten by clone_from (AAD phase or data phase, possibly mid-block)
+        if style == 'random' and rng.below(12) == 0 and kinds[0] in ('e', 'd'):
+            n = rng.choice([1, 16, 33])
+            steps.append('%sx.%s.%d' % (kinds[0], rng.bytes(n).hex(), n + rng.choice([-1, 1, 16])))      # refused call (output length mismatch), then the context is used again
     return steps
 
 
@@ -123,9 +126,10 @@ def shape(line):
     f = line.split()
     if f[0] == 'aead_inc':
         al = sum(spec_len(s[2:]) for s in f[4:] if s.startswith('a.')) + sum(int(s.split('.')[1]) for s in f[4:] if s.startswith('az.'))
-        steps = [s for s in f[4:] if s.split('.')[0] in ('e', 'em', 'd', 'dm', 'cl')]
-        dl = sum(spec_len(s.split('.')[1]) for s in steps if s != 'cl')
-        return (f[0], f[1], spec_len(f[2]), al, dl, tuple((s.split('.')[0], spec_len(s.split('.')[1]) if s != 'cl' else 0) for s in steps))
+        steps = [s for s in f[4:] if s.split('.')[0] in ('e', 'em', 'd', 'dm', 'cl', 'clf', 'ex', 'dx')]
+        real = lambda s: s.split('.')[0] in ('e', 'em', 'd', 'dm')
+        dl = sum(spec_len(s.split('.')[1]) for s in steps if real(s))
+        return (f[0], f[1], spec_len(f[2]), al, dl, tuple((s.split('.')[0], spec_len(s.split('.')[1]) if real(s) else 0) for s in steps))
     return (f[0], f[1], spec_len(f[2]), spec_len(f[4]), spec_len(f[5]))
 
 
@@ -148,7 +152,9 @@ def coverage(line, toks):
                 pos += ln
             elif p[0] in ('E', 'D'):
                 data_phase = True
-            elif p[0] == 'cl':
+            elif p[0] in ('ex', 'dx'):
+                out.append('inc:refused-call-then-reuse')
+            elif p[0] in ('cl', 'clf'):
                 out.append('inc:clone:%s' % ('aad-phase' if not data_phase else ('midblock' if pos % 64 else 'block-boundary')))
     return out
 
